@@ -264,6 +264,7 @@ def run_all(mod, ctx, prop):
     ctx.each(per_key_alias_rule, ctx, ctx.repo, "R%sw" % prop[1:], mods)
     ctx.each(loop_carried_rule, ctx, ctx.repo, "R%sx" % prop[1:], mods)
     ctx.each(loop_dependence_rule, ctx, ctx.repo, "R%sy" % prop[1:], mods)
+    ctx.each(raw_quotient_truncation_rule, ctx, ctx.repo, "R%sz" % prop[1:], mods)
 
 
 def _names(e):
@@ -434,6 +435,13 @@ def loop_dependent_stores(fi):
     return out
 
 
+def _ancestors(n):
+    p = getattr(n, "_parent", None)
+    while p is not None:
+        yield p
+        p = getattr(p, "_parent", None)
+
+
 def loop_dependence_rule(ctx, repo, rule_id, modules):
     ctx.rule(rule_id, "what is written per item comes from that item: a store into a per-item object inside a loop (`par.units = ...` for each target population, `ts[k] = ...` for each key) whose value depended on the loop variable on the reviewed tree (rules/tables/loop_stores.json) still depends on it; a value hoisted out of the loop gives every item the first item's value")
     table = json.load(open(os.path.join(TABLES, "loop_stores.json")))
@@ -446,12 +454,43 @@ def loop_dependence_rule(ctx, repo, rule_id, modules):
             if not want:
                 continue
             have = loop_dependent_stores(fi)
+            loops_now = {ast.unparse(l.target) for l in own_nodes(fi.node) if isinstance(l, ast.For)}
             for lt, st in want:
                 if (lt, st) not in have:
-                    continue  # the store was renamed, moved or removed: not judged here
+                    # the loop is still there and the same store now sits outside it: only the last item is stored
+                    if lt in loops_now and not any(k[1] == st for k in have):
+                        outside = [s_ for s_ in own_nodes(fi.node) if isinstance(s_, ast.Assign) and len(s_.targets) == 1 and ast.unparse(s_.targets[0]) == st and not any(isinstance(a, ast.For) and ast.unparse(a.target) == lt for a in _ancestors(s_))]
+                        if outside:
+                            n += 1
+                            ctx.fail(rule_id, fi, outside[0], "`%s` was stored once per item of `for %s in ...` on the reviewed tree and is now stored after the loop: only the last item's value is kept" % (st, lt), stmt_text="store-left-loop:%s" % st)
+                    continue  # otherwise the store was renamed, moved or removed: not judged here
                 n += 1
                 if not have[(lt, st)]:
                     ctx.fail(rule_id, fi, fi.node, "inside `for %s in ...` the value stored in `%s` no longer depends on `%s` (it did on the reviewed tree): every item now receives the same value, whichever item it belongs to" % (lt, st, lt), stmt_text="invariant-store:%s" % st)
     ctx.note(rule_id, "%d per-item stores checked" % n)
     if n:
         ctx.ok(rule_id, ", ".join(modules), "%d per-item stores still depend on their loop variable" % n)
+
+
+TRUNCATION_EXCEPTIONS = {("plotting", "PlotData.time_aggregate"): "number of integration sub-steps of the aggregation window; any count >= the quotient is acceptable there"}
+
+
+def raw_quotient_truncation_rule(ctx, repo, rule_id, modules):
+    from . import discretise
+
+    ctx.rule(rule_id, "no index or count is obtained by truncating a raw quotient by the step size: int() / floor / ceil / trunc applied directly to `<something> / dt` is one off whenever the quotient of two binary floats lands a hair below (or above) the integer it stands for (0.3 / 0.1, (2018.25 - 2000) / (1/12)); the quotient has to be rounded or snapped first (as _n_steps and _keyring_size do)")
+    n = 0
+    for mod in modules:
+        m = repo.module(mod)
+        for fi in m.all_functions():
+            for c in own_nodes(fi.node):
+                if isinstance(c, ast.Call) and ast.unparse(c.func) in discretise.DISCRETISERS and c.args:
+                    n += 1
+                    if discretise.is_raw_quotient(c.args[0]):
+                        if (mod, fi.qualname) in TRUNCATION_EXCEPTIONS:
+                            ctx.ok(rule_id, fi, "reviewed exception: %s" % TRUNCATION_EXCEPTIONS[(mod, fi.qualname)], c)
+                            continue
+                        ctx.fail(rule_id, fi, enclosing_stmt(c), "`%s` truncates the raw quotient `%s`: for step sizes that are not a power of two the result is one less (or one more) than the intended index / count for a sizeable share of the grid points" % (ast.unparse(c)[:70], ast.unparse(c.args[0])[:50]), stmt_text="truncate:%s" % ast.unparse(c.args[0])[:60])
+    ctx.note(rule_id, "%d truncating calls inspected" % n)
+    if n:
+        ctx.ok(rule_id, ", ".join(modules), "%d truncating calls: none applied to a raw quotient by a step" % n)
